@@ -129,8 +129,15 @@ where
     while n < n_max {
         let guess = f(initial);
         let new_guess = f(guess);
-        let diff = initial
-            - (guess - initial).powi(2) / (new_guess - N::from_f64(2.0).unwrap() * guess + initial);
+        let second_difference = new_guess - N::from_f64(2.0).unwrap() * guess + initial;
+        if second_difference.is_zero() {
+            // at a fixed point Aitken's formula is 0/0
+            if (guess - initial).is_zero() {
+                return Ok(guess);
+            }
+            return Err("Steffensen: second difference vanished".to_owned());
+        }
+        let diff = initial - (guess - initial).powi(2) / second_difference;
         if (diff - initial).abs() <= tol {
             return Ok(diff);
         }
